@@ -144,6 +144,23 @@ LawPathTo ==
 LawPathFor ==
   c.kind = "tree" => \A n \in c.tree : Walk(c.tree, <<>>, n) = n
 
+\* Moving a subtree (re-parenting node src under the key "z" of node dst): every
+\* node below src is afterwards found at dst \o <<"z">> \o (its path below src),
+\* every other node where it was; path_for, walking and path_to hold on the
+\* moved tree like on any other tree (nothing remembers the old place)
+MovedPath(p, src, dst) ==
+  IF Len(src) <= Len(p) /\ SubSeq(p, 1, Len(src)) = src
+    THEN dst \o <<"z">> \o SubSeq(p, Len(src) + 1, Len(p)) ELSE p
+Moved(T, src, dst) == {MovedPath(p, src, dst) : p \in T}
+MovePairs(T) == {m \in T \X T : /\ Len(m[1]) = 1 /\ Len(m[2]) = 1 /\ m[1] # m[2]}
+LawMoveKeepsTheAlgebra ==
+  c.kind = "tree" =>
+    \A m \in MovePairs(c.tree) :
+       LET M == Moved(c.tree, m[1], m[2]) IN
+         /\ \A n \in M : Walk(M, <<>>, n) = n
+         /\ \A a \in M, b \in M : Walk(M, a, PathTo(a, b)) = b
+         /\ Cardinality(M) = Cardinality(c.tree)
+
 LawGetAssoc ==
   c.kind = "dict" =>
     \A p \in DictPaths \ {<<>>} :
